@@ -318,7 +318,12 @@ def _check_deph(case, ctx):
                           where=tag)
                 continue
             ref = rho0[a, c] * numpy.exp(-1j * (Hr[a] - Hr[c]) * t - g[a] - numpy.conj(g[c]))
-            model = (abs(rho0[a, c]) * dt_eff * float(numpy.max(numpy.abs(gp[a] + numpy.conj(gp[c]))))
+            # the time-local propagation sums g'(t_n) dt instead of integrating g': the difference is bounded by
+            # dt times the total variation of g' (equal to max |g'| where g' is monotone; Matsubara terms of either
+            # sign make it larger - a thorough run found 1.01 x the max-based bound at T = 150 K with 42 terms)
+            gsum = gp[a] + numpy.conj(gp[c])
+            tv = float(numpy.sum(numpy.abs(numpy.diff(gsum.real))) + numpy.sum(numpy.abs(numpy.diff(gsum.imag))))
+            model = (abs(rho0[a, c]) * dt_eff * max(tv, float(numpy.max(numpy.abs(gsum))))
                      + 3 * trunc + 2e-4 * abs(rho0[a, c]) + 1e-9)
             ctx.bound("pure-dephasing-solution", float(numpy.max(numpy.abs(data[:, a, c] - ref))), model, where=tag,
                       m=m, nref=nref, a=a, c=c)
